@@ -159,11 +159,23 @@ class Sub(Inner):
     extra = Integer32(min_occurs=1)
 
 
+class ForeignBase(ComplexModel):
+    __namespace__ = 'verif.other'
+    fb = Integer
+    fs = Unicode
+
+
+class Sub2(ForeignBase):
+    __namespace__ = TNS
+    own = Integer
+
+
 class Outer(ComplexModel):
     __namespace__ = TNS
     n = Integer
     inner = Inner
     sub = Sub
+    sub2 = Sub2
     items = Array(Inner)
     tags = Unicode(max_occurs='unbounded')
     when = DateTime
@@ -202,7 +214,7 @@ def outer_values():
     return [
         Outer(n=1, inner=Inner(x=1, s='a', t='attr'), items=[Inner(x=1, s='a'), Inner(x=2)], tags=['p', 'q'],
               when=dt.datetime(2020, 1, 1, 0, 0, 0, 0, TZ), amount=decimal.Decimal('1.50'), code=7, must=5,
-              sub=Sub(x=9, s='s', extra=3)),
+              sub=Sub(x=9, s='s', extra=3), sub2=Sub2(fb=1, fs='f', own=2)),
         Outer(must=None),
         Outer(n=0, inner=Inner(), items=[], tags=[], must=0, sub=Sub(extra=0)),
         Outer(n=-5, items=[Inner(x=None, s=''), Inner(x=2 ** 64, s=u'\xe9', t='')], tags=['only'], code=0, must=1),
@@ -297,7 +309,23 @@ def _mk_roundtrip(family, validator):
         else:
             for (k, ft), v in zip(in_ti.items(), args):
                 xmlref.encode_into(root, ft, v, k, TNS)
+        with_comments = c.choose([False, True], 'comments_in_request')
+        if with_comments:
+            # comments may appear anywhere in a schema-valid document: inside simple content, between members and
+            # array items, before the operation element
+            for e in list(root.iter()):
+                if isinstance(e.tag, str) and len(e) == 0 and e.text and len(e.text) > 1:
+                    t0 = e.text
+                    e.text = t0[:1]
+                    cm = etree.Comment(' split ')
+                    cm.tail = t0[1:]
+                    e.append(cm)
+                elif isinstance(e.tag, str) and len(e) > 0:
+                    e.insert(0, etree.Comment(' first '))
+                    e.insert(len(e) // 2 + 1, etree.Comment(' middle '))
         body = etree.tostring(root)
+        if with_comments:
+            body = b'<!-- before the operation -->' + body
         if family == 'xml':
             data = body
         else:
